@@ -110,6 +110,7 @@ def ensure(config="union"):
     return d
 
 
+_STD = re.compile(r"\b(?:core|alloc)::")
 _PREFIX = re.compile(r'^\{"k":"(\w+)","(?:path|crate)":"((?:[^"\\]|\\.)*)"')
 
 
@@ -120,11 +121,12 @@ class Facts:
         self.crate = crate
         self.dir = ensure(config)
         self.file = os.path.join(self.dir, crate + ".jsonl")
-        self._raw = {"fn": {}, "mir": {}, "adt": {}, "const": {}, "impl": {}}
+        self._raw = {"fn": {}, "mir": {}, "adt": {}, "const": {}, "impl": {}, "mod": {}}
         self._parsed = {}
         self.summary = None
         with open(self.file) as fh:
             for line in fh:
+                line = _STD.sub("std::", line)
                 m = _PREFIX.match(line)
                 if not m:
                     raise ToolError("unparseable fact line: " + line[:200])
